@@ -391,7 +391,7 @@ class Executor:
         t = self.p.T(tid)
         k = t["k"]
         if k == "named":
-            if t["name"] in ("sync.Pool", "sync.Mutex", "sync.RWMutex", "sync.Once", "sync.WaitGroup", "sync.noCopy"):
+            if t["name"] in ("sync.Mutex", "sync.RWMutex", "sync.Once", "sync.WaitGroup", "sync.noCopy"):
                 return Opaque(t["name"])
             return self.zero(t["under"])
         if k == "basic":
@@ -1015,6 +1015,10 @@ class Executor:
     def finish_stub(self, st, fr, r, retname):
         if isinstance(r, ForkResult):
             def app(s2, v):
+                if isinstance(v, tuple) and len(v) == 2 and v[0] == "call":
+                    # alternative that continues by calling a Go function (e.g. sync.Pool.New)
+                    self.call_fn(s2, s2.frames[-1], v[1].fn, [], v[1].binds, retname, None)
+                    return
                 if callable(v):
                     v = v(s2)
                 if retname:
@@ -1036,7 +1040,7 @@ class Executor:
             if short.startswith("v") and short in self.intrinsics:
                 h = self.intrinsics[short]
         if h is None and fname.startswith("(*sync/atomic.Pointer["):
-            h = self.stub_prefixes["(*sync/atomic.Pointer["].get(fname.rsplit(".", 1)[-1])
+            h = self.stub_prefixes["(*sync/atomic.Pointer["].get(fname.rsplit(".", 1)[-1].split("[")[0])
         if h is not None:
             self.stats.stubs.add(fname)
             return self.finish_stub(st, fr, h(self, st, args, ins), retname)
@@ -1070,9 +1074,9 @@ class Executor:
     def opaque_result(self, st, fname, ins):
         """environment call that the property does not depend on (logging, context, errgroup...): no effect on modelled
         memory; scalar results are fresh unconstrained symbols, everything else an opaque non-nil value"""
-        sig = self.p.T(ins["call"]["sig"]) if ins else None
+        sig = self.p.T(ins["call"]["sig"]) if ins and "call" in ins else None
         if sig is None:
-            return None
+            return None   # deferred call: results are discarded
         outs = []
         for rt in sig["results"]:
             ii = self.p.intinfo(rt)
@@ -1205,6 +1209,15 @@ class Executor:
             return self.binop(st, "==", x, y, tid, None)
         raise Unsupported("equality on " + ut.get("s", k))
 
+    def val_eq_iface(self, st, x, y):
+        if x is None or y is None:
+            return x is None and y is None
+        if x.tid != y.tid:
+            return False
+        if x.tid == "opaque":
+            return x.val == y.val
+        return self.val_eq(st, x.val, y.val, x.tid)
+
     def ptr_eq(self, x, y):
         if x is None or y is None:
             return x is None and y is None
@@ -1292,10 +1305,13 @@ class Executor:
             self.set(fr, ins, self.A.bitnot(x, *ii))
             return
         if op == "<-":
-            h = self.intrinsics.get("chanrecv")
-            if h:
-                return h(self, st, fr, ins, x)
-            raise Unsupported("channel receive")
+            r = self.chan_ready(st, x)
+            if r is False:
+                raise PathEnd()   # blocks forever
+            et = ins["t"] if not ins["commaok"] else self.p.T(ins["t"])["elems"][0]
+            v, ok = self.chan_take(st, x, self.zero(et))
+            self.set(fr, ins, (v, ok) if ins["commaok"] else v)
+            return
         raise Unsupported("unop " + op)
 
     def i_Store(self, st, fr, ins):
@@ -1621,6 +1637,73 @@ class Executor:
         kz = self.zero(kt)
         self.set(fr, ins, (False, kz, None))
 
+    # --- channels (minimal, sequential): a channel is a heap object ("chan", closed, buffered values)
+    def i_MakeChan(self, st, fr, ins):
+        o = self.newobj("ch")
+        st.heap[o] = ("chan", False, ())
+        self.set(fr, ins, ChanRef(o))
+
+    def i_Send(self, st, fr, ins):
+        ch = self.val(st, fr, ins["chan"])
+        v = self.val(st, fr, ins["x"])
+        if isinstance(ch, Opaque):
+            return
+        if ch is None:
+            raise PathEnd()   # send on nil channel blocks forever
+        _, closed, buf = st.heap[ch.obj]
+        if closed:
+            raise GoPanic("send on closed channel")
+        st.heap[ch.obj] = ("chan", closed, buf + (v,))
+
+    def chan_ready(self, st, ch):
+        """None = unknown (opaque environment channel), else bool"""
+        if isinstance(ch, Opaque):
+            return None
+        if ch is None:
+            return False
+        _, closed, buf = st.heap[ch.obj]
+        return closed or len(buf) > 0
+
+    def chan_take(self, st, ch, elem_zero):
+        if isinstance(ch, Opaque):
+            return (Opaque("recv"), True)
+        _, closed, buf = st.heap[ch.obj]
+        if buf:
+            st.heap[ch.obj] = ("chan", closed, buf[1:])
+            return (buf[0], True)
+        return (elem_zero, False)
+
+    def i_Select(self, st, fr, ins):
+        states = ins["states"]
+        chans = [self.val(st, fr, s["chan"]) for s in states]
+        rty = self.p.T(ins["t"])["elems"]
+        alts = []
+        for i, (s, ch) in enumerate(zip(states, chans)):
+            if s["dir"] == 1:   # send
+                raise Unsupported("select with send case")
+            r = self.chan_ready(st, ch)
+            if r is False:
+                continue
+            alts.append((True, i))
+        if not ins["blocking"]:
+            alts.append((True, -1))
+        if not alts:
+            raise PathEnd()   # blocks forever: not an execution that returns
+        nrecv = len(rty) - 2
+
+        def app(s2, i):
+            vals = [self.zero(t) for t in rty[2:]]
+            ok = False
+            if i >= 0:
+                # position of this receive among the receive cases
+                pos = sum(1 for s in states[:i] if s["dir"] != 1)
+                v, ok = self.chan_take(s2, chans[i], vals[pos] if nrecv else None)
+                if nrecv:
+                    vals[pos] = v
+            s2.frames[-1].locals[ins["name"]] = tuple([i, ok] + vals)
+            s2.nforks += 0
+        return self.fork(st, alts, app)
+
     def i_SliceToArrayPointer(self, st, fr, ins):
         x = self.val(st, fr, ins["x"])
         if x.ptr is None:
@@ -1706,9 +1789,15 @@ class Executor:
         if name == "recover":
             return None
         if name == "close":
-            h = self.intrinsics.get("chanclose")
-            if h:
-                return h(self, st, args[0])
+            ch = args[0]
+            if isinstance(ch, Opaque):
+                return None
+            if ch is None:
+                raise GoPanic("close of nil channel")
+            _, closed, buf = st.heap[ch.obj]
+            if closed:
+                raise GoPanic("close of closed channel")
+            st.heap[ch.obj] = ("chan", True, buf)
             return None
         if name == "clear":
             x = args[0]
